@@ -184,20 +184,31 @@ class ConcEnv:
         self.domain_ok = True
         self.notes = []
 
-    def _v(self, name):
-        if name not in self.values or self.values[name] is None:
-            return 0.0
-        return float(Fr(self.values[name]))
+    def _v(self, name, lo=None, hi=None, lo_open=False, hi_open=False):
+        """Model value; variables the model leaves free (they did not occur in the failing obligation) get a
+        deterministic generic value inside their declared bounds (not 0, which would hide most effects)."""
+        if name in self.values and self.values[name] is not None:
+            return float(Fr(self.values[name]))
+        u = (int(hashlib.sha256(name.encode()).hexdigest()[:8], 16) % 9973) / 9973.0  # in [0,1)
+        u = 0.05 + 0.9 * u
+        if lo is not None and hi is not None:
+            return float(Fr(lo)) + (float(Fr(hi)) - float(Fr(lo))) * u
+        if lo is not None:
+            return float(Fr(lo)) + 0.25 + u
+        if hi is not None:
+            return float(Fr(hi)) - 0.25 - u
+        return 0.25 + u
 
     def real(self, name, lo=None, hi=None, lo_open=False, hi_open=False, nonzero=False):
-        return self._v(name)
+        return self._v(name, lo, hi)
 
-    pos = real
+    def pos(self, name):
+        return self._v(name, 0, None)
 
     def array(self, name, shape, lo=None):
         a = np.empty(shape, dtype=np.float64)
         for idx in np.ndindex(*a.shape):
-            a[idx] = self._v(name + '_' + '_'.join(map(str, idx)))
+            a[idx] = self._v(name + '_' + '_'.join(map(str, idx)), lo)
         return a
 
     def const(self, v):
@@ -210,7 +221,16 @@ class ConcEnv:
     def grid(self, name, L, symbolic=True, points=None):
         if not symbolic:
             return self.constarray(points)
-        return np.array([0.0] + [self._v('%s%d' % (name, i)) for i in range(1, L - 1)] + [1.0])
+        g = [0.0] + [None] * (L - 2) + [1.0]
+        for i in range(1, L - 1):
+            k = '%s%d' % (name, i)
+            if k in self.values and self.values[k] is not None:
+                g[i] = float(Fr(self.values[k]))
+        for i in range(1, L - 1):  # free interior points: spread between the neighbours that are fixed
+            if g[i] is None:
+                j = next(q for q in range(i + 1, L) if g[q] is not None)
+                g[i] = g[i - 1] + (g[j] - g[i - 1]) / (j - i + 1)
+        return np.array(g)
 
     def assume(self, cond):
         if not bool(cond):
